@@ -3,9 +3,11 @@ package main
 import (
 	"crypto/ecdsa"
 	"encoding/binary"
+	"encoding/json"
 	"fmt"
 	"sort"
 	"strings"
+	"verif/harness/explore"
 
 	"github.com/mosaicnetworks/babble/src/common"
 	hg "github.com/mosaicnetworks/babble/src/hashgraph"
@@ -308,8 +310,49 @@ func init() {
 				x.Close()
 			}
 		}
+		// (5) the thresholds where they are used: every fame decision the hashgraph makes while a static DAG is inserted
+		// event by event must also follow from the harness's own vote count over the n validators ("more than two
+		// thirds of n concurring votes of strongly seen witnesses"; every fourth round a coin round)
+		refTot := RefResult{}
+		{
+			srcs := []string{"named:funky", "named:funkystacked", "named:coinround", "named:outoforder", "harvest:" + scStatic3, "harvest:" + scStatic4, "harvest:" + scSilent4,
+				"harvest:" + scSilent5, "harvest:" + scLate4, "harvest:" + scLaggards4, "harvest:" + scLaggards7, "harvest:" + scPart4, "harvest:" + scPart5, "harvest:slow:4:4:1:120", "harvest:slow:4:2:0:120",
+				"harvest:irregular:4:183:200:0", "harvest:irregular:4:802:200:0"}
+			nIrr := 16
+			if th {
+				nIrr = 48
+			}
+			for k := 0; k < nIrr; k++ {
+				srcs = append(srcs, fmt.Sprintf("harvest:irregular:5:%d:100:0", k))
+			}
+			if th {
+				for k := 0; k < 16; k++ {
+					srcs = append(srcs, fmt.Sprintf("harvest:irregular:7:%d:100:0", k), fmt.Sprintf("harvest:irregular:6:%d:100:0", k))
+				}
+			}
+			raw := make([]json.RawMessage, len(srcs))
+			for i, s := range srcs {
+				raw[i], _ = json.Marshal(RefItem{Source: s})
+			}
+			pool := explore.Pool{Mode: "refvote"}
+			pool.Run(raw, func(r explore.PoolResult) {
+				if r.Crashed != "" || r.Err != "" {
+					ev.Fail("reference vote count: item %s failed in the harness: %s%s", string(raw[r.Index]), r.Crashed, r.Err)
+				}
+				var res RefResult
+				json.Unmarshal(r.Res, &res)
+				refTot.Prefixes += res.Prefixes
+				refTot.Skipped += res.Skipped
+				refTot.Decisions += res.Decisions
+				refTot.Events += res.Events
+				if res.Diff != "" {
+					viol("vote-count:"+srcs[r.Index], srcs[r.Index]+": "+res.Diff, map[string]interface{}{"worker_mode": "refvote", "item": json.RawMessage(raw[r.Index])})
+				}
+			})
+		}
 		sort.Slice(rep.Violations, func(i, j int) bool { return rep.Violations[i].Key < rep.Violations[j].Key })
 		cov := rep.Coverage
+		cov["reference_vote_count"] = map[string]interface{}{"dags_events": refTot.Events, "prefixes": refTot.Prefixes, "prefixes_skipped_rounds_differ": refTot.Skipped, "fame_decisions_compared": refTot.Decisions}
 		cov["cluster_executions_with_changing_validator_sets"] = clusterExecs
 		cov["cluster_steps"] = clusterSteps
 		cov["states"] = states + bfsStates
@@ -319,7 +362,7 @@ func init() {
 		cov["distinct_nontrivial"] = nontrivial + bfsStates
 		cov["exhaustive"] = true
 		cov["samples"] = samples
-		cov["rule"] = fmt.Sprintf("every n in 1..%d on a real PeerSet grown by WithNewPeer (non-trivial: n not divisible by 3, where floor/ceil formulas differ); BFS over all WithNewPeer/WithRemovedPeer sequences over a 5-key universe to depth %d with state = ordered member list (%d set states, %d transitions) against a list model; CheckBlock/SetAnchorBlock decisions with 0..n valid distinct signatures for n=1..10 (%d decisions); anchor blocks offered and signatures recorded by the nodes of 14 runs with leaves, joins, a re-join and a leaving validator that keeps signing (> 1/3 of the distinct validators of the block's round; signers and witness creators members of that round's set)", maxN, depth, bfsStates, bfsTrans, decisions)
+		cov["rule"] = fmt.Sprintf("every n in 1..%d on a real PeerSet grown by WithNewPeer (non-trivial: n not divisible by 3, where floor/ceil formulas differ); BFS over all WithNewPeer/WithRemovedPeer sequences over a 5-key universe to depth %d with state = ordered member list (%d set states, %d transitions) against a list model; CheckBlock/SetAnchorBlock decisions with 0..n valid distinct signatures for n=1..10 (%d decisions); anchor blocks offered and signatures recorded by the nodes of 14 runs with leaves, joins, a re-join and a leaving validator that keeps signing (> 1/3 of the distinct validators of the block's round; signers and witness creators members of that round's set); every fame decision made while 33 (thorough 97) static DAGs of 3..7 validators are inserted event by event re-derived by the harness's own vote count over n (late witnesses excluded; see / strongly-see relations taken from the implementation)", maxN, depth, bfsStates, bfsTrans, decisions)
 		rep.Assumptions = []string{"peers for the 1..100000 sweep use distinct synthetic 65-byte keys (no EC arithmetic needed: only set size matters)"}
 		return rep.Finish()
 	}
